@@ -8,7 +8,52 @@ use crate::sim::Rng;
 
 const FAM: Family = Family { prop: "C18", gen: gen_c18 };
 
+/// Directed hand-off shape (foreign poller / stale waiter): task A creates an Acquire, polls it once
+/// and parks it as its last operation; task B takes the parked future over and awaits it; permits
+/// arrive from the main thread or a third task at any point (before A ends, between, after B polls).
+fn gen_handoff(rng: &mut Rng) -> ProgCase {
+    let fair = rng.chance(2, 3);
+    let init = rng.below(2);
+    let n = 1 + rng.below(2);
+    let res = Resources { sems: vec![(init, fair)], ..Default::default() };
+    let sem_op = |rng: &mut Rng| match rng.below(5) {
+        0 => Op::SemTry(0, 1),
+        1 => Op::SemRelease(0, 1 + rng.below(2)),
+        2 => Op::Yield,
+        3 => Op::SemAcquire(0, 1),
+        _ => Op::SemRelease(0, 1),
+    };
+    let mut a = vec![];
+    for _ in 0..rng.below(2) {
+        a.push(sem_op(rng));
+    }
+    a.push(Op::SemStash(0, n));
+    let mut b = vec![];
+    for _ in 0..rng.below(2) {
+        b.push(Op::Yield);
+    }
+    b.push(Op::SemTakeAwait(0));
+    let mut main = vec![Op::Spawn(1), Op::Spawn(2)];
+    for _ in 0..rng.range(1, 3) {
+        let pos = rng.range(1, main.len());
+        main.insert(pos, Op::SemRelease(0, 1 + rng.below(2)));
+    }
+    if rng.chance(1, 2) {
+        main.push(Op::Join(0));
+    }
+    if rng.chance(1, 2) {
+        main.push(Op::SemRelease(0, 2));
+    }
+    if rng.chance(2, 3) {
+        main.push(Op::Join(1));
+    }
+    ProgCase { prog: Program { res, bodies: vec![main, a, b] }, sim: sim_for(rng), max_steps: None }
+}
+
 pub fn gen_c18(batch: &str, rng: &mut Rng) -> ProgCase {
+    if batch == "handoff" {
+        return gen_handoff(rng);
+    }
     let mut cfg = GenCfg::none();
     cfg.sem = true;
     cfg.max_bodies = rng.range(2, 5);
@@ -49,7 +94,7 @@ pub fn check() -> Check {
         rule: "per run: a seeded program of 2-5 threads over 1-2 engine-level BatchSemaphores (initial permits 0-3, strictly fair or unfair): blocking acquire(n), try_acquire(n), release(n) (also of permits never acquired = added permits), close, and cancellation (an Acquire future polled once or twice with a scheduling point in between and then dropped: before queueing, queued, granted-but-not-observed); every operation reports available_permits() right after it. Oracle: lockstep reference model (FIFO queue, head granted as soon as it fits, nobody overtakes in fair mode; any fitting waiter may win in unfair mode; cancel leaves the queue and returns what it was granted; close fails pending and later acquisitions): results, available permits after every operation (conservation), offered set at every decision, final verdict. Distinct = (program, chosen sequence); non-trivial = at least one switch",
         assumptions: &["acquisitions are issued from threads (acquire_blocking / manual polling); futures moved between tasks and waiters whose task finished are exercised by C17/C19", "n >= 1 (acquire of 0 permits is a tokio-level question, see C19)"],
         real_components: "real: shuttle-engine future::batch_semaphore (BatchSemaphore, Acquire incl. Drop), block_on, runtime; model only as oracle",
-        batches: |t: Tier| vec![Batch::new("fair", t.pick(9000, 150000), 300), Batch::new("unfair", t.pick(9000, 150000), 300), Batch::new("mixed", t.pick(6000, 100000), 300), Batch::new("known", t.pick(40, 200), 20)],
+        batches: |t: Tier| vec![Batch::new("fair", t.pick(9000, 150000), 300), Batch::new("unfair", t.pick(9000, 150000), 300), Batch::new("mixed", t.pick(6000, 100000), 300), Batch::new("handoff", t.pick(8000, 120000), 400), Batch::new("known", t.pick(40, 200), 20)],
         run: |b, i, seed, t| {
             if b == "known" {
                 // pinned witness of known finding F9
@@ -74,6 +119,6 @@ pub fn check() -> Check {
             run_family(&FAM, b, seed, t)
         },
         replay: |c| replay_family(&FAM, c),
-        probes: &["sem_acquire_ok", "sem_acquire_err", "sem_try_ok", "sem_try_nopermits", "sem_try_closed", "sem_cancelled", "sem_cancel_acquired", "sem_close", "ending_deadlock"],
+        probes: &["sem_acquire_ok", "sem_acquire_err", "sem_try_ok", "sem_try_nopermits", "sem_try_closed", "sem_cancelled", "sem_cancel_acquired", "sem_stashed", "sem_takeover_ok", "sem_close", "ending_deadlock"],
     }
 }
